@@ -694,6 +694,59 @@ func extractLocks(repo string, o *out) {
 		onceStr = "true"
 	}
 	o.lines = append(o.lines, "def clientStreamWrittenOnlyWhenNil : Bool := "+onceStr)
+	// condition-variable handshake (C12): every `….Broadcast()` of gcp_interceptor.go directly follows an
+	// `….Unlock()` in its block — the wake-up is sent after a lock region ended, so a waiter is either
+	// before its check or already inside cond.Wait (what makes `watcherFire` / `broadcast` atomic steps
+	// of the stream model)
+	{
+		af := parse(filepath.Join(repo, "grpcgcp/gcp_interceptor.go"))
+		total, after := 0, 0
+		isCall := func(st ast.Stmt, name string) bool {
+			es, ok := st.(*ast.ExprStmt)
+			if !ok {
+				return false
+			}
+			ce, ok := es.X.(*ast.CallExpr)
+			if !ok {
+				return false
+			}
+			se, ok := ce.Fun.(*ast.SelectorExpr)
+			return ok && se.Sel.Name == name
+		}
+		ast.Inspect(af, func(n ast.Node) bool {
+			var list []ast.Stmt
+			switch b := n.(type) {
+			case *ast.BlockStmt:
+				list = b.List
+			case *ast.CaseClause:
+				list = b.Body
+			case *ast.CommClause:
+				list = b.Body
+			}
+			for i, st := range list {
+				if isCall(st, "Broadcast") || isCall(st, "Signal") {
+					total++
+					if i > 0 && isCall(list[i-1], "Unlock") {
+						after++
+					}
+				}
+			}
+			return true
+		})
+		// Broadcast calls that are not plain statements (deferred, in expressions) are not counted as handshaken
+		other := 0
+		ast.Inspect(af, func(n ast.Node) bool {
+			if ce, ok := n.(*ast.CallExpr); ok {
+				if se, ok := ce.Fun.(*ast.SelectorExpr); ok && (se.Sel.Name == "Broadcast" || se.Sel.Name == "Signal") {
+					other++
+				}
+			}
+			return true
+		})
+		o.lines = append(o.lines, fmt.Sprintf("def condBroadcasts : Nat := %d", other))
+		o.lines = append(o.lines, fmt.Sprintf("def condBroadcastsAfterUnlock : Nat := %d", after))
+		_ = total
+	}
 	o.extraFiles = map[string]string{"Accesses.lean": "/- GENERATED by tools/extract (locks.go) from /repo's working tree on every run. Do not edit. -/\nimport GcpVerif.Model.Sync\nnamespace GcpVerif.Generated\nopen GcpVerif.Sync\n\ndef accesses : List Access := [\n" +
 		strings.Join(uniq, ",\n") + "\n]\n\ndef acquisitions : List Acquisition := [\n" + strings.Join(acqLines, ",\n") + "\n]\n\nend GcpVerif.Generated\n"}
 }
